@@ -40,7 +40,10 @@ RULE = ("sigma in 10^[-6,6] (full range, narrow contrast, homogeneous, the two "
         "kind x (constructor|assignment) x (scalar|array with one bad "
         "entry|all bad|list) and the valid counterparts; solve: grids 8..16 "
         "(thorough to 24) cells per direction, sextuple of MG solves, "
-        "Simulation data (gridding same/input) and gradients; distinct = "
+        "Simulation data (gridding same/input) and gradients; layered: "
+        "Simulation(layered=True) with every extraction method on "
+        "isotropic/VTI models, derived options and layered data compared "
+        "across the six mappings; distinct = "
         "(level, mapping, anisotropy case, mu?, eps?, domain, build/kind) "
         "tuples that reached an oracle")
 ASSUMPTIONS = [
@@ -912,6 +915,87 @@ def check_gridopts(rec, seed, k, i, tier):
     rec.distinct(('gridopts', ms['case'], shape))
 
 
+def check_layered(rec, seed, k, i, tier):
+    """Layered (1D) mode of a Simulation: the options derived from the model
+    (default averaging radius) and the layered data must not depend on the
+    mapping in which the same conductivities are expressed."""
+    import emg3d
+    r = gen.rng(seed, 'C14', 'layered', k, i)
+    shape = tuple(int(x) for x in r.integers(3, 7, 3))
+    gs = gen.grid_spec(r, shape)
+    ms = model_truth(r, shape, case=gen.choice(r, ['isotropic', 'VTI']),
+                     mu=False, eps=False)
+    grid = gen.build_emg3d(gs)
+    nodes = [grid.nodes_x, grid.nodes_y, grid.nodes_z]
+
+    def pt():
+        return [float(r.uniform(n[1], n[-2])) for n in nodes]
+    src = emg3d.TxElectricDipole(np.array([pt(), pt()]))
+    recs = [emg3d.RxElectricPoint((*pt(), float(r.uniform(-180, 180)), 0.0))
+            for _ in range(2)]
+    freq = float(10**r.uniform(-1, 1))
+    method = gen.choice(r, ['cylinder', 'cylinder', 'prism', 'source',
+                            'receiver', 'midpoint'])
+    # (gridding='input' with a mesh raises ValueError in this code path when
+    # discretize is installed - a crash, not a mapping dependence; not used)
+    gridding = gen.choice(r, ['same', 'dict'])
+    compute = (i % 3 == 0)
+    case = {'level': 'layered', 'seed': seed, 'k': k, 'i': i, 'shape': shape,
+            'case': ms['case'], 'method': method, 'gridding': gridding,
+            'grid': gen.summarize_grid(gs)}
+    rec.case()
+    radii, data = {}, {}
+    for mapping in MAPPINGS:
+        model = make_model(emg3d, grid, ms, mapping, 'construct', r)
+        survey = emg3d.surveys.Survey(src, recs, [freq])
+        kw = {'gridding_opts': {'TxED-1': {'f-1': grid}}} \
+            if gridding == 'dict' else {}
+        try:
+            with quiet():
+                sim = emg3d.Simulation(
+                    survey, model, max_workers=1, gridding=gridding,
+                    layered=True, layered_opts={'method': method},
+                    tqdm_opts=False, **kw)
+                lo = sim.layered_opts
+                if compute:
+                    sim.compute()
+                    data[mapping] = np.array(sim.data.synthetic.data)
+        except Exception as e:  # noqa
+            rec.inconclusive(f'layered Simulation raised {type(e).__name__}: '
+                             f'{e}', dict(case, mapping=mapping))
+            return
+        rec.event('layered_simulations')
+        radii[mapping] = (lo.get('ellipse') or {}).get('radius')
+    r0 = radii['Conductivity']
+    rec.event('layered_option_checks')
+    for mapping, rad in radii.items():
+        if (rad is None) != (r0 is None) or (rad is not None and not (
+                abs(rad - r0) <= 1e-12*abs(r0))):
+            rec.violation('C14:layered-options-differ-between-mappings',
+                          f'layered mode ({method}, gridding={gridding!r}): '
+                          f'default averaging radius {rad!r} for mapping '
+                          f'{mapping} vs {r0!r} for Conductivity (same '
+                          f'physical model)', dict(case, mapping=mapping))
+            return
+    if compute:
+        d0 = data['Conductivity']
+        rec.event('layered_data_checks')
+        if not np.all(np.isfinite(d0)):
+            rec.event('layered_data_nonfinite')
+            return
+        for mapping, d in data.items():
+            q = float(np.max(np.abs(d - d0)/np.abs(d0))) if np.all(
+                np.isfinite(d)) else float('nan')
+            rec.margin('layered_data_spread', q)
+            if not (q <= 1e-8):
+                rec.violation('C14:layered-data-differ-between-mappings',
+                              f'layered data of the {mapping} model differ '
+                              f'from those of the Conductivity model by '
+                              f'{q:.3e} (relative)', dict(case, mapping=mapping))
+                return
+    rec.distinct(('layered', ms['case'], method, gridding, compute))
+
+
 def make_survey(emg3d, spec):
     srcs = [emg3d.TxElectricDipole(np.array(s)) for s in spec['sources']]
     recs = []
@@ -1103,6 +1187,7 @@ def plan(tier, seed):
             parts.append({'mode': 'maps', 'k': k, 'n': 20})
             parts.append({'mode': 'coef', 'k': k, 'n': 125})
             parts.append({'mode': 'gridopts', 'k': k, 'n': 12})
+            parts.append({'mode': 'layered', 'k': k, 'n': 6})
             out.append({'id': f'q{k}', 'parts': parts})
         return out
     nb = 40
@@ -1111,7 +1196,8 @@ def plan(tier, seed):
                  {'mode': 'sim', 'k': k, 'n': 3},
                  {'mode': 'maps', 'k': k, 'n': 200},
                  {'mode': 'coef', 'k': k, 'n': 1000},
-                 {'mode': 'gridopts', 'k': k, 'n': 100}]
+                 {'mode': 'gridopts', 'k': k, 'n': 100},
+                 {'mode': 'layered', 'k': k, 'n': 30}]
         if k < 30:
             parts.append({'mode': 'reject', 'mapping': MAPPINGS[k % 6],
                           'rep0': 4*(k//6), 'reps': 4})
@@ -1157,6 +1243,8 @@ def run_batch(batch):
                 guarded(check_sim, seed, part['k'], i, tier)
             elif mode == 'gridopts':
                 guarded(check_gridopts, seed, part['k'], i, tier)
+            elif mode == 'layered':
+                guarded(check_layered, seed, part['k'], i, tier)
     return rec.result()
 
 
@@ -1169,4 +1257,5 @@ def finalize(merged, tier):
         'valid_value_checks': 1500, 'valid_int_typed_value_checks': 500,
         'field_residual_checks': 36, 'field_sextuple_checks': 6,
         'data_sextuple_checks': 4, 'data_regrid_mu_eps_checks': 1,
-        'gradient_chain_checks': 2})
+        'gradient_chain_checks': 2, 'layered_option_checks': 60,
+        'layered_data_checks': 20})
